@@ -42,7 +42,7 @@ def grid_files(tag, nr, nt, seed):
     return fr, fa
 
 
-def case_args(shape, method, ext, fmg, dirbc, threads, geometry=2, levels=-1, cycle=0):
+def case_args(shape, method, ext, fmg, dirbc, threads, geometry=2, levels=-1, cycle=0, caches=(1, 1)):
     tag, nr, nt, seed = shape
     fr, fa = grid_files(tag, nr, nt, seed)
     a = ["--load_grid_file", 1, "--file_grid_radii", fr, "--file_grid_angles", fa,
@@ -50,7 +50,8 @@ def case_args(shape, method, ext, fmg, dirbc, threads, geometry=2, levels=-1, cy
          "--delta_e", 1.4 if geometry == 2 else 0.2, "--alpha_jump", 0.66, "--R0", 0.05, "--Rmax", 1.3,
          "--extrapolation", ext, "--FMG", fmg, "--FMG_iterations", 1, "--FMG_cycle", cycle, "--multigridCycle", cycle,
          "--maxLevels", levels, "--maxIterations", 2, "--maxOpenMPThreads", threads,
-         "--stencilDistributionMethod", method, "--DirBC_Interior", dirbc, "--verbose", 0]
+         "--stencilDistributionMethod", method, "--DirBC_Interior", dirbc, "--verbose", 0,
+         "--cacheDensityProfileCoefficients", caches[0], "--cacheDomainGeometry", caches[1]]     # method 1 = give (the only one that runs uncached)
     return [str(x) for x in a]
 
 
